@@ -119,6 +119,8 @@ def features(q):
                 m = re.match(r"^(.*?)\s+as\s+([a-z_][a-z0-9_]*)$", it)
                 if m:
                     src, al = m.group(1).strip(), m.group(2)
+                    if src in paths and al != src:
+                        f.add("path-variable-renamed-in-with")
                     if al in bound and al != src:
                         f.add("with-alias-rebinds-existing-name")
                         if re.fullmatch(r"[a-z_][a-z0-9_]*", src):
